@@ -20,7 +20,7 @@ TRUSTED = ['reflection term <- typing object (harness/props/_checker_common.refl
 
 def cases(rng, tier):
     n = 12000 if tier == 'quick' else 150000
-    out = K.gen_checker_cases(rng, n) + K.name_family() + K.big_cases(rng, 60 if tier == 'quick' else 600) + K.alias_cases(rng, 150 if tier == 'quick' else 1500)
+    out = K.gen_checker_cases(rng, n) + K.name_family() + K.big_cases(rng, 60 if tier == 'quick' else 600) + K.alias_cases(rng, 150 if tier == 'quick' else 1500) + K.cyclic_cases(rng, 120 if tier == 'quick' else 1200)
     # the two other routes into the checker that the statement names: a @pedantic call and a type-safe frozen dataclass
     m = 300 if tier == 'quick' else 3000
     out += C.build_cases(rng, m, calls_per=3, style='kw', tag='c01c') + C.scenario_cases(rng, m // 2, style='kw', tag='c01s')
